@@ -23,6 +23,7 @@ def correspondence(ctx, batch):
     for _ in range(ctx.n(120, 1500)):
         schedule = [[rng.choice([0, 0, 1, 2]), stages.gen_ctx_body(rng, rng.randint(1, 4))] for _ in range(rng.randint(1, 5))]
         stages.stage_ctxexec(batch, schedule)
+        stages.stage_ctxops(batch, stages.gen_ctx_ops(rng))
     for _ in range(ctx.n(60, 800)):
         c = _c06.gen_case(rng)
         stages.stage_render(batch, [tuple(x) for x in c["inputs"]], registry, worker.cmps_from(c["cmps"]), [c["job"]])
